@@ -205,6 +205,9 @@ FIXED = [
     ("INT N=0-3 WHILE(N){ PRINT(N) n60 N++ } PRINT(N)", "(() ((decl N (b 4 0 3)) (while N ((print N) (note 60) (inc N 1))) (print N)))"),
     ("FOR(INT I=0-2; I; I++){ PRINT(I) n61 } PRINT(I)", "(() ((for I (b 4 0 2) I (inc I 1) ((print I) (note 61))) (print I)))"),
     ("INT N=0-2 IF(N){ PRINT(1) }ELSE{ PRINT(2) } WHILE(N+1){ N++ PRINT(N) }", "(() ((decl N (b 4 0 2)) (if N ((print 1)) ((print 2))) (while (b 3 N 1) ((inc N 1) (print N)))))"),
+    # an omitted argument may be written with blanks around its comma: it still holds its place
+    ("FUNCTION F(PA=7,QB=9){ RETURN((PA*10)+QB) } PRINT(F( ,3)) PRINT(F(1, )) INT X=F( , ) PRINT(X) FUNCTION G(PA=1,QB=2,RC=3){ RETURN(((PA*100)+(QB*10))+RC) } PRINT(G(5, ,6)) PRINT(G( , ,4)) PRINT(G( ,8))",
+     "(((fn F ((PA 7) (QB 9)) ((ret (b 3 (b 0 PA 10) QB)))) (fn G ((PA 1) (QB 2) (RC 3)) ((ret (b 3 (b 3 (b 0 PA 100) (b 0 QB 10)) RC))))) ((print (call F (ZZNONE 3))) (print (call F (1))) (decl X (call F ())) (print X) (print (call G (5 ZZNONE 6))) (print (call G (ZZNONE ZZNONE 4))) (print (call G (ZZNONE 8)))))"),
     # RETURN out of a loop whose condition is a bare literal ends the loop with the call: no further pass, no limit error
     ("FUNCTION FIND(ND){ FOR(INT I=0; 1; I++){ IF(I*I>=ND){ RETURN(I) } } } PRINT(FIND(10)) PRINT(FIND(0))",
      "(((fn FIND ((ND _)) ((for I 0 1 (inc I 1) ((if (b 8 (b 0 I I) ND) ((ret I)) ())))))) ((print (call FIND (10))) (print (call FIND (0)))))"),
